@@ -190,17 +190,149 @@ def gen_transformation(rng, labels):
     return 'decrease formal charge (%s)' % a
 
 
-def gen_rule_constraints(rng):
-    k = rng.randrange(5)
+def gen_cterm(rng, names=('r1',)):
+    """One rule constraint (grammar: Constraint)."""
+    r = rng.choice(list(names))
+    k = rng.randrange(10)
     if k == 0:
-        return 'constraints{ r1.size ' + gen_cnum(rng) + ' }'
+        chain = r + '.size'
+        while rng.random() < 0.3:
+            chain += ' ' + rng.choice(BOOLS) + ' ' + rng.choice(list(names)) \
+                + '.size'
+        return chain + ' ' + gen_cnum(rng)
     if k == 1:
-        return 'constraints{ r1.charge ' + gen_cnum(rng) + ' }'
+        chain = r + '.charge'
+        while rng.random() < 0.3:
+            chain += ' ' + rng.choice(BOOLS) + ' ' + rng.choice(list(names)) \
+                + '.charge'
+        return chain + ' ' + gen_cnum(rng)
     if k == 2:
-        return 'constraints{ r1 is aromatic }'
+        return r + ' is cyclic'
     if k == 3:
-        return 'constraints{ ! r1 is cyclic }'
-    return 'constraints{ fragment f{C labeled q1} r1 contains >1 of f }'
+        return r + ' is ' + rng.choice(['aromatic', 'oxygenate',
+                                        'heteroaromatic', 'bridged'])
+    if k == 4:
+        return r + ' is ' + rng.choice(['CCO', 'paraffin', 'C=C', '"CCO"',
+                                        'C1CC1', '[CH3]'])
+    if k == 5:
+        f = ''.join(rng.choice(['C', 'H', 'O', 'N', 'Cl', 'Pt']) +
+                    (str(rng.randrange(0, 20)) if rng.random() < 0.7 else '')
+                    for _ in range(rng.randrange(1, 4)))
+        return r + '.formula is ' + f
+    if k == 6:
+        return r + ' contains ' + (gen_cnum(rng) + ' of '
+                                   if rng.random() < 0.6 else '') + 'f'
+    if k == 7:
+        return r + ' contains ' + (gen_cnum(rng) + ' of '
+                                   if rng.random() < 0.5 else '') + \
+            ('group ' if rng.random() < 0.3 else '') + \
+            rng.choice(['alkyl', 'g1'])
+    if k == 8:
+        return r + ' is cyclic'
+    return rng.choice(['zz', 'r9']) + ' is aromatic'     # unknown reactant
+
+
+def gen_cexpr(rng, depth, names=('r1',)):
+    """A constraint chain (grammar: ConstraintChain / BranchConstraint):
+    terms joined by boolean operators, parenthesised to `depth` levels."""
+    s = ''
+    if rng.random() < 0.2:
+        s += rng.choice(BOOLS) + ' '
+    if depth > 0 and rng.random() < 0.6:
+        s += '(' + gen_cexpr(rng, depth - 1, names) + ')'
+    else:
+        s += gen_cterm(rng, names)
+    if rng.random() < 0.3:
+        s += ' ' + rng.choice(BOOLS) + ' ' + gen_cexpr(rng, depth, names)
+    return s
+
+
+def gen_rule_constraints(rng, names=('r1',)):
+    body = gen_cexpr(rng, rng.choice([0, 0, 1, 2, 3, 5]), names)
+    frags = ''
+    if ' of f' in body or body.endswith(' f') or rng.random() < 0.1:
+        frags = 'fragment f{C labeled q1} '
+        if rng.random() < 0.2:
+            frags += 'fragment f2{O labeled q1 C labeled q2 single bond to q1} '
+    return 'constraints{ ' + frags + body + ' }'
+
+
+SAFE_TERMS = ['r1 is cyclic', 'r1 is aromatic', 'r1.size >2', 'r1.charge =0',
+              'r1 is paraffin', 'r1.formula is C2H6', 'r1 contains alkyl',
+              'r1.size && r1.size <9', '! r1 is bridged']
+
+
+SAFE_ATOM_CONSTRAINTS = ['connected to >1 C', '! connected to O with double bond',
+                         'in ring of size >4', 'has 1 radical electrons',
+                         'connected to =2 H', '! in ring of size 3']
+
+
+def _safe_term(rng, pure=True):
+    # terms the grammar accepts, so that a deep structure is read to its end
+    # (pure), or now and then any term
+    if pure or rng.random() < 0.9:
+        return rng.choice(SAFE_TERMS)
+    return gen_cterm(rng)
+
+
+DEEP_SIZES = [12, 16, 20, 30, 45, 60, 90, 150, 300]
+DEEP_KINDS = 9
+
+
+def gen_deep(rng, k=None, n=None, pure=None):
+    """Size strata for the recursive productions of the grammar: one
+    production repeated / nested n times in an otherwise small text.
+    Returns (text, description)."""
+    if n is None:
+        n = rng.choice(DEEP_SIZES)
+    if k is None:
+        k = rng.randrange(DEEP_KINDS)
+    if pure is None:
+        pure = rng.random() < 0.7
+    head = 'rule deep{ reactant r1{ C labeled c1 } '
+    tail = ' increase number of radical (c1) }'
+    if k == 0:
+        # nested parentheses around one constraint, closed or cut off
+        closed = rng.random() < 0.6
+        body = '(' * n + _safe_term(rng, pure) + (')' * n if closed else
+                                           ')' * rng.randrange(0, n))
+        return head + 'constraints{ ' + body + ' }' + tail, 'nested-parens'
+    if k == 1:
+        body = (' ' + rng.choice(['&&', '||']) + ' ').join(
+            _safe_term(rng, pure) for _ in range(n))
+        return head + 'constraints{ ' + body + ' }' + tail, 'constraint-chain'
+    if k == 2:
+        # every level holds a chain of two
+        body = _safe_term(rng, pure)
+        for _ in range(min(n, 90)):
+            body = '(' + body + ' && ' + _safe_term(rng, pure) + ')'
+        return head + 'constraints{ ' + body + ' }' + tail, 'nested-chains'
+    if k == 3:
+        body = ' '.join('fragment f%d{C labeled q1}' % i for i in range(n))
+        return head + 'constraints{ ' + body + ' r1 contains f1 }' + tail, \
+            'fragment-chain'
+    if k == 4:
+        body = ' && '.join(['r1.size'] * n) + ' >2'
+        return head + 'constraints{ ' + body + ' }' + tail, 'size-chain'
+    if k == 5:
+        body = ''.join(rng.choice(['C', 'H', 'O']) + str(rng.randrange(1, 9))
+                       for _ in range(n))
+        return head + 'constraints{ r1.formula is ' + body + ' }' + tail, \
+            'formula-chain'
+    if k == 6:
+        steps = ' '.join(gen_transformation(rng, ['c1']) for _ in range(n))
+        return head + steps + ' }', 'transformation-chain'
+    if k == 7:
+        cons = ', '.join(rng.choice(SAFE_ATOM_CONSTRAINTS) if pure
+                         else gen_constraint(rng) for _ in range(n))
+        return 'fragment deep{ C labeled c1 {' + cons + '} }', \
+            'atom-constraint-chain'
+    labs = ['c%d' % (i + 1) for i in range(n)]
+    atoms = ['C labeled c1'] + ['C labeled %s single bond to %s' % (b, a)
+                                for a, b in zip(labs, labs[1:])]
+    mp = ', '.join('%s => d%d' % (l, i + 1) for i, l in enumerate(labs))
+    return 'rule deep{ reactant r1{ %s } reactant r2 duplicates r1 (%s) ' \
+        'form bond (c1, d1) }' % (' '.join(atoms), mp), 'label-mapping-chain'
 
 
 def gen_rule(rng, max_atoms=4, layout=True):
@@ -242,7 +374,8 @@ def gen_rule(rng, max_atoms=4, layout=True):
     if rng.random() < 0.1:
         labels = labels + ['zz9']
     if rng.random() < 0.2:
-        s += _ws(rng, layout) + gen_rule_constraints(rng)
+        s += _ws(rng, layout) + gen_rule_constraints(
+            rng, tuple(sorted(set(names))) or ("r1",))
     for _ in range(rng.randrange(1, 4)):
         s += _ws(rng, layout) + gen_transformation(rng, labels or ['c1'])
     return s + _ws(rng, layout) * (rng.random() < 0.5) + '}'
